@@ -143,6 +143,26 @@ func hostProxy(ctx context.Context, host, shimPath string, injectShimCode, force
 	return banner.Proxy(ctx, h, *injectBanner, *bannerHeight, *favIconURL, metricHandler)
 }
 
+// removeConnectionOption removes the given option from the `Connection` header values.
+func removeConnectionOption(h http.Header, option string) {
+	values := h.Values("Connection")
+	if len(values) == 0 {
+		return
+	}
+	h.Del("Connection")
+	for _, v := range values {
+		var kept []string
+		for _, o := range strings.Split(v, ",") {
+			if !strings.EqualFold(strings.TrimSpace(o), option) {
+				kept = append(kept, o)
+			}
+		}
+		if len(kept) > 0 {
+			h.Add("Connection", strings.Join(kept, ","))
+		}
+	}
+}
+
 // forwardRequest forwards the given request from the proxy to
 // the backend server and reports the response back to the proxy.
 func forwardRequest(client *http.Client, hostProxy http.Handler, request *utils.ForwardedRequest) error {
@@ -154,6 +174,9 @@ func forwardRequest(client *http.Client, hostProxy http.Handler, request *utils.
 		// Use `Set` rather than `Add` so that the backend only ever sees the
 		// identity reported by the proxy, and not a value supplied by the client.
 		httpRequest.Header.Set(utils.HeaderUserID, request.User)
+		// Do not let the client nominate that header as a hop-by-hop one
+		// (via `Connection`), as the reverse proxy would then drop it.
+		removeConnectionOption(httpRequest.Header, utils.HeaderUserID)
 	}
 	if *stripCredentials {
 		httpRequest.Header.Del(headerAuthorization)
